@@ -655,6 +655,7 @@ impl<'a> Enumerator<'a> {
                     let mut b = a.clone();
                     b.push(x.clone());
                     next.push(b);
+                    self.produced += 1;
                     if next.len() > self.cap {
                         self.truncated = true;
                         break 'outer;
@@ -669,6 +670,11 @@ impl<'a> Enumerator<'a> {
     fn atom_values(&mut self, atoms: &[&'a Runtype], depth: usize) -> R<Vec<Value>> {
         if atoms.is_empty() {
             return unsup("unconstrained-position");
+        }
+        // global work budget: beyond it the universe is declared truncated (=> inconclusive `no`s)
+        if self.produced > 300_000 {
+            self.truncated = true;
+            return Ok(vec![]);
         }
         let first = atoms[0];
         let all_obj = atoms.iter().all(|a| matches!(a.kind, RuntypeKind::Object { .. }));
